@@ -1,5 +1,6 @@
 """C17 — parsing and dispatch are total."""
 from .util import *
+import json
 from ..callgraph import CallGraph
 
 EXPLANATION = """
@@ -229,6 +230,30 @@ def run(ctx):
         return bad
     ctx.run("C17.b", "K6 TABLE", "parser-built Command variants vs dispatch_command arms", "every command the parser returns is answered", b_)
 
+    def nesting_guarded(b, bb, input_op, strict=False):
+        """is the call at bb dominated by the 'not too deep' outcome of a nesting / depth guard applied to the same input?
+        Guards are recognised by name (last path segment contains `nesting` or `depth`) and by outcome: bool -> false edge, Result -> Ok/Continue edge."""
+        for gcall in b.calls:
+            if gcall.cleanup or not re.search(r"nesting|depth", gcall.nname.split("::")[-1]) or not gcall.args:
+                continue
+            edges = []
+            try:
+                edges += bool_result_edge(b, gcall, False)
+            except Exception:
+                pass
+            edges += [e_ for (e_, v_) in ok_edges(b, gcall)]
+            if not edges or not any(b.dominates_edge(e_, bb) for e_ in edges):
+                continue
+            if input_op is None:
+                return gcall.nname.split("::")[-1]
+            if strict:
+                # the guard must look at the very text that is deserialised (same value through moves / refs / as_bytes), not at something it was cut out of
+                if b._origin_locals(gcall.args[0], depth=12) & b._origin_locals(input_op, depth=12):
+                    return gcall.nname.split("::")[-1]
+            elif wide_all(b, gcall.args[0]) & wide_all(b, input_op):
+                return gcall.nname.split("::")[-1]
+        return None
+
     def c(inst):
         roots = [k for k in cg.nodes if norm_path(k) == "command::parser::command::parse_command"]
         seen, keys = sweep(roots, in_parser)
@@ -275,6 +300,25 @@ def run(ctx):
                     guarded = True
                 if any(re.search(r"depth|nesting", c_.nname) for c_ in b.calls):
                     guarded = True
+            if not guarded:
+                # recursion bounded from outside: every call that enters the cycle's module from another module sits behind a nesting guard on its input
+                mods = {x.rsplit("::", 1)[0] for x in comp}
+                entries = []
+                for f_ in [k for k in cg.nodes if k.rsplit("::", 1)[0] in mods]:
+                    for caller in cg.callers(f_):
+                        if caller.split("::{closure")[0].rsplit("::", 1)[0] not in mods and not any(caller.startswith(m_ + "::") for m_ in mods):
+                            entries.append((caller, f_))
+                if entries:
+                    ok_all = True
+                    for caller, f_ in entries:
+                        cb = F.fn_exact(caller)
+                        for c_ in cb.calls:
+                            if c_.cleanup or c_.nname != norm_path(f_):
+                                continue
+                            if not nesting_guarded(cb, c_.bb, c_.args[0] if c_.args else None):
+                                ok_all = False
+                    if ok_all:
+                        guarded = True
             inst.sites.append("cycle %s%s" % ([n.split("::")[-1] for n in names], " (depth-guarded)" if guarded else ""))
             if not guarded:
                 if rep in BOUNDED_CYCLES:
@@ -297,9 +341,87 @@ def run(ctx):
                 c_ = b.call_at(bb)
                 target = (c_.ga or "") if c_ else ""
                 if "serde_json::Value" in target or "serde_json::value::Value" in target:
-                    inst.sites.append("%s: %s into serde_json::Value" % (base(k), n))
+                    g_ = nesting_guarded(b, bb, c_.args[0] if c_ and c_.args else None, strict=True)
+                    inst.sites.append("%s: %s into serde_json::Value%s" % (base(k), n, " (guarded by %s)" % g_ if g_ else ""))
+                    if g_:
+                        continue
                     bad.append(("unbounded-recursion:external:%s<Value>@%s" % (n, base(k)),
                                 "%s deserialises user text into the recursive serde_json::Value with %s (no depth limit): nested braces become native stack depth" % (base(k), n), None))
+        # the same for crate-local RECURSIVE target types (e.g. the HTTP JSON command whose `where` expression nests): the derived Deserialize impls
+        # form a cycle over the crate's types; found from the generic arguments / callee paths mentioned inside `<impl Deserialize for T>::deserialize…`
+        de = {}
+        for k in F.keys():
+            m_ = re.search(r"Deserialize<'de> for ([\w:]+)>::deserialize", k)
+            if m_ and not k.startswith("bin:"):
+                de.setdefault(m_.group(1), []).append(k)
+        tg = {}
+        for t, ks_ in de.items():
+            outs = set()
+            for k in ks_:
+                for (bb, p_, u_, virt, sp_, mac, cu, st) in F.cg[k]["c"]:
+                    if cu:
+                        continue
+                    txt = (p_ or "") + " " + (u_ or "") + " " + json.dumps(st or "")
+                    for t2 in de:
+                        if t2 != t and t2 in txt:
+                            outs.add(t2)
+                        elif t2 == t and re.search(r"(Box|Vec|Option)<[^>]*" + re.escape(t), txt):
+                            outs.add(t2)
+            tg[t] = outs
+        # generic arguments live on the call records of the bodies: use them for precision where the path alone does not name the type
+        for t, ks_ in de.items():
+            for k in ks_:
+                B = F.fn_exact(k)
+                for c_ in B.calls:
+                    if c_.cleanup:
+                        continue
+                    g = c_.ga or ""
+                    for t2 in de:
+                        if t2 in g and (t2 != t or re.search(r"(Box|Vec|Option)<[^>]*" + re.escape(t), g)):
+                            tg[t].add(t2)
+
+        def recursive_from(t0):
+            seen_, stack_ = set(), [t0]
+            while stack_:
+                x = stack_.pop()
+                for y in tg.get(x, ()):
+                    if y == t0 or y in tg.get(y, ()):
+                        return y
+                    if y not in seen_:
+                        seen_.add(y)
+                        stack_.append(y)
+            # any cycle reachable
+            for x in seen_ | {t0}:
+                seen2, st2 = set(), list(tg.get(x, ()))
+                while st2:
+                    y = st2.pop()
+                    if y == x:
+                        return x
+                    if y not in seen2:
+                        seen2.add(y)
+                        st2 += list(tg.get(y, ()))
+            return None
+        for k in F.keys():
+            if k.startswith("bin:") or not re.match(r"^(frontend|command)::", k):
+                continue
+            for (bb, p_, u_, virt, sp_, mac, cu, st) in F.cg[k]["c"]:
+                n = norm_path(p_ or u_ or "")
+                if cu or not EXTERNAL_RECURSIVE.match(n):
+                    continue
+                b = F.fn_exact(k)
+                c_ = b.call_at(bb)
+                target = (c_.ga or "") if c_ else ""
+                tt = [t for t in de if t in target]
+                for t in tt:
+                    r_ = recursive_from(t)
+                    if not r_:
+                        continue
+                    # a nesting guard on the same input dominating the call on its "not too deep" edge bounds the recursion
+                    guarded = bool(nesting_guarded(b, bb, c_.args[0] if c_.args else None, strict=True))
+                    inst.sites.append("%s: %s into %s (recursive through %s)%s" % (base(k), n, t.split("::")[-1], r_.split("::")[-1], " (nesting-guarded)" if guarded else ""))
+                    if not guarded:
+                        bad.append(("unbounded-recursion:external:%s<%s>@%s" % (n, t.split("::")[-1], base(k)),
+                                    "%s deserialises user text into %s, which nests through %s, with %s (no depth limit): nesting in the request becomes native stack depth" % (base(k), t.split("::")[-1], r_.split("::")[-1], n), None))
         return bad
     ctx.run("C17.c", "K4 REACH (cycles)", "parser layer call-graph cycles", "input nesting cannot exhaust the native stack", c)
 
@@ -387,6 +509,7 @@ def run(ctx):
 ARMED_CYCLES = {
     "command::parser::commands::query::sneldb_query::__parse_and_expr",
     "command::parser::commands::plotql::plotql_parser::__parse_and_expr",
+    "command::parser::commands::store::sneldb_store::__parse_balanced_braces",
 }
 # cycles that were triaged and found bounded by construction (reason recorded, reported as notes)
 BOUNDED_CYCLES = {
